@@ -1,6 +1,7 @@
 import IpaVerif.Model.Util
 import IpaVerif.Model.Dzkp
 import IpaVerif.Model.DzkpStore
+import IpaVerif.Model.DzkpBatch
 /-! Line-protocol handlers for property C03 (model side) and the spec-side oracle. Import-free.
 
 Requests
@@ -14,6 +15,7 @@ Requests
   c03.hash2field lefts rights combinedhex exclude
   c03.validate api ty count mpg seed dev           dev = `-` or helper:field:record:bit
   c03.store first max gate:record:width:f0.….f6;…   block dump per gate
+  c03.batch seed prover uidx vidx dev rho mp mq chs    dev = `-` | alt:pos | two:pos ; rho/mp/mq/chs observed
 -/
 namespace IpaVerif.Driver.C03
 open IpaVerif.Util IpaVerif.PrimeField IpaVerif.Generated IpaVerif.Generated.Dzkp IpaVerif.Dzkp
@@ -184,6 +186,93 @@ def storeSpec (first : Option Nat) (max : Nat) (ops : List String) : Option (Opt
   let total := render.foldl (fun a x => a + 256 * x.1) 0
   pure (some (s!"n={total} e={boolStr (render.all fun x => x.1 == 0)}" ++ String.join (render.map (·.2))))
 
+
+/-! ### `c03.batch seed prover uidx vidx dev rho mp mq chs`
+
+One prover's `ProofBatch::generate` and its two verifiers (`IpaVerif.DzkpBatch` with the `Fp61BitPrime` operations).
+`uidx`/`vidx`: the prover's own table indices; `dev`: `-` (honest), `alt:pos` (the left verifier recorded a flipped
+`z_right` at `pos`: bit `e` of its `u` index differs; the prover follows the protocol on its own records),
+`two:pos` (same, and the prover feeds the recursion with the verifier's view: "two-faced"). -/
+
+structure BatchViews where
+  first : List (Nat × Nat)
+  recur : List (Nat × Nat)
+  ul : List Nat
+  vr : List Nat
+
+def batchViews (u v : List Nat) (dev : String) : Option BatchViews :=
+  if u.length ≠ v.length then none else
+  let honest := u.zip v
+  if dev = "-" then some { first := honest, recur := honest, ul := u, vr := v } else
+  match dev.splitOn ":" with
+  | [kind, pos] => do
+      let pos ← pos.toNat?
+      if pos ≥ u.length then none else
+      let flip (x : Nat) : Nat := x ^^^ 4
+      let ul := u.set pos (flip (u.getD pos 0))
+      if kind = "two" then
+        some { first := honest, recur := honest.set pos (flip (u.getD pos 0), v.getD pos 0), ul := ul, vr := v }
+      else if kind = "alt" then some { first := honest, recur := honest, ul := ul, vr := v }
+      else none
+  | _ => none
+
+def toV4 (l : List Nat) : IpaVerif.DzkpBatch.V4 Nat := ⟨l.getD 0 0, l.getD 1 0, l.getD 2 0, l.getD 3 0⟩
+def toP7 (l : List Nat) : IpaVerif.DzkpBatch.P7 Nat :=
+  ⟨l.getD 0 0, l.getD 1 0, l.getD 2 0, l.getD 3 0, l.getD 4 0, l.getD 5 0, l.getD 6 0⟩
+def ofP7 (z : IpaVerif.DzkpBatch.P7 Nat) : List Nat := [z.p0, z.p1, z.p2, z.p3, z.p4, z.p5, z.p6]
+
+def handleBatch (us vs dev rho mp mq chs : String) : Option String := do
+  let u ← parseDigits us
+  let v ← parseDigits vs
+  let w ← batchViews u v dev
+  let rho ← parseNatList rho
+  let mp ← mp.toNat?
+  let mq ← mq.toNat?
+  let chs ← parseNatList chs
+  if ¬ IpaVerif.DzkpBatch.shape_ok then pure "model-shape-mismatch" else
+  let rowU (i : Nat) := toV4 (tableU.getD i [])
+  let rowV (i : Nat) := toV4 (tableV.getD i [])
+  let ins (l : List (Nat × Nat)) := l.map fun ij => (rowU ij.1, rowV ij.2)
+  let rhoF (lvl : Nat) := toP7 ((rho.drop (7 * lvl)).take 7)
+  let H (lvl : Nat) (_ _ : IpaVerif.DzkpBatch.P7 Nat) : Nat := chs.getD lvl 0
+  let o := IpaVerif.DzkpBatch.natOps
+  match IpaVerif.DzkpBatch.generate o (ins w.first) (ins w.recur) rhoF H mp mq with
+  | none => pure "panic"
+  | some left =>
+    let right := (List.range left.length).map rhoF
+    let cs := IpaVerif.DzkpBatch.challenges H left right
+    let s := fmul (truncateFrom fp61 u.length) minusOneHalf
+    match IpaVerif.DzkpBatch.finalCheck o (w.ul.map rowU) cs mp, IpaVerif.DzkpBatch.finalCheck o (w.vr.map rowV) cs mq,
+          IpaVerif.DzkpBatch.verifyDiffs o (w.ul.map rowU) (w.vr.map rowV) left right H mp mq s with
+    | some p, some q, some d =>
+        let vd := if d.all (· == 0) then "ok" else "fail"
+        pure s!"left={showNatList (left.flatMap ofP7)} p={p} q={q} v={vd} all={vd},{vd},{vd}"
+    | _, _, _ => pure "panic"
+
+/-- spec side of `c03.batch`: the verdict must be `ok` for an honest prover whose verifiers' triples are all
+consistent, and `fail` whenever some triple `(a,c,e′)/(b,d,f)` seen by the two verifiers is inconsistent — whatever
+the prover did with its proofs (bit formula `e′ = ab ⊕ cd ⊕ f` on the table indices; independent of the model). -/
+def batchOracle (us vs dev impl : String) : Option String := do
+  let u ← parseDigits us
+  let v ← parseDigits vs
+  let w ← batchViews u v dev
+  let okPair (i j : Nat) : Bool :=
+    let a := i % 2 == 1; let c := i / 2 % 2 == 1; let e := i / 4 % 2 == 1
+    let b := j % 2 == 1; let d := j / 2 % 2 == 1; let f := j / 4 % 2 == 1
+    e == ((a && b) ^^ (c && d) ^^ f)
+  let consistent := (w.ul.zip w.vr).all fun (i, j) => okPair i j
+  let fields := impl.splitOn " "
+  let verdicts := (fields.filter (·.startsWith "all=")).flatMap fun f => (f.drop 4).toString.splitOn ","
+  let single := (fields.filter (·.startsWith "v=")).map fun f => (f.drop 2).toString
+  if verdicts.length ≠ 3 ∨ single.length ≠ 1 then
+    pure "fails no verdicts (panic, timeout or malformed response)"
+  else if consistent ∧ dev = "-" then
+    pure (if (verdicts ++ single).all (· == "ok") then "holds" else "fails an honest batch of consistent multiplications was rejected")
+  else if ¬ consistent then
+    pure (if (verdicts ++ single).all (· == "fail") then "holds"
+          else "fails a batch containing an inconsistent multiplication was accepted (the prover's proofs do not bind it to the verifiers' records)")
+  else pure "unknown"
+
 def handle (toks : List String) : Option String :=
   match toks with
   | ["c03.consts"] => some s!"{inverseOfTwo} {minusOneHalf} {minusTwo}"
@@ -227,6 +316,7 @@ def handle (toks : List String) : Option String :=
   | ["c03.store", first, max, ops] => some <| (do
       let f ← if first == "-" then some none else first.toNat?.map some
       storeRun f (← max.toNat?) (ops.splitOn ";")).getD "bad-request"
+  | ["c03.batch", _seed, _pi, us, vs, dev, rho, mp, mq, chs] => some ((handleBatch us vs dev rho mp mq chs).getD "bad-request")
   | _ => none
 
 /-! ## spec side: plain arithmetic modulo p, Fermat inverses, bit formulas -/
@@ -376,6 +466,7 @@ def oracle (toks : List String) (impl : String) : Option String :=
       match ← storeSpec f (← max.toNat?) (ops.splitOn ";") with
       | none => pure (impl.startsWith "panic")
       | some exp => pure (impl == exp)) "stored blocks are not exactly the pushed segments at stride next_pow2(width) (others zero), or an out-of-range record was accepted"
+  | ["c03.batch", _seed, _pi, us, vs, dev, _rho, _mp, _mq, _chs] => some ((batchOracle us vs dev impl).getD "unknown")
   | "c03.table" :: _ => some "unknown"
   | "c03.proof" :: _ => some "unknown"
   | _ => none
